@@ -78,7 +78,8 @@ impl<I: RecvmsgSyscall> RecvmsgSyscall for NioRecvmsgSyscall<I> {
                     target_os = "android",
                     target_os = "emscripten"
                 ))] {
-                    let msg_iovlen = vec.len();
+                    // the count of the array that is passed down, not of the caller's array
+                    let msg_iovlen = iov.len();
                 } else {
                     let msg_iovlen = c_int::try_from(iov.len()).unwrap_or_else(|_| {
                         panic!("{} msghdr.msg_iovlen overflow", crate::common::constants::SyscallName::recvmsg)
